@@ -63,6 +63,8 @@ pub struct Local {
     pub evals: u64,
     pub counters: BTreeMap<String, u64>,
     pub nontrivial: HashSet<u64>,
+    /// non-trivial cases that are distinct by construction (enumerated tiers): counted, not hashed
+    pub nontrivial_counted: u64,
     pub samples_nt: Vec<Value>,
     pub samples_tr: Vec<Value>,
     pub kf_hits: BTreeMap<String, (u64, String)>,
@@ -100,6 +102,7 @@ impl Local {
     fn merge(&mut self, o: Local) {
         self.evals += o.evals;
         self.steered += o.steered;
+        self.nontrivial_counted += o.nontrivial_counted;
         for (k, v) in o.counters {
             *self.counters.entry(k).or_insert(0) += v;
         }
@@ -364,7 +367,7 @@ impl Ctx {
             "level": "exploration",
             "coverage": {
                 "evaluations": acc.evals,
-                "distinct_nontrivial": acc.nontrivial.len(),
+                "distinct_nontrivial": acc.nontrivial.len() as u64 + acc.nontrivial_counted,
                 "rule": rule,
                 "samples": samples,
                 "exhaustive": self.exhaustive.load(Ordering::Relaxed),
@@ -388,7 +391,7 @@ impl Ctx {
             self.id,
             if self.quick() { "quick" } else { "thorough" },
             acc.evals,
-            acc.nontrivial.len(),
+            acc.nontrivial.len() as u64 + acc.nontrivial_counted,
             self.t0.elapsed().as_secs_f64(),
             acc.counters.iter().map(|(k, v)| format!("{}={}", k, v)).collect::<Vec<_>>().join(" ")
         );
